@@ -96,7 +96,7 @@ def trace_oracles(E, subs, tasks, steps):
     return bad
 
 
-def model_ops(E, layout, per, subs, tasks, slots, steps):
+def model_ops(E, layout, per, subs, tasks, slots, steps, serial=True):
     names = {v: k[len("TASKTYPE_"):] for k, v in E.items() if k.startswith("TASKTYPE_")}
     outside = E["NEIGHBOUR_OUTSIDE"]
     ops, exp = [], []
@@ -132,7 +132,7 @@ def model_ops(E, layout, per, subs, tasks, slots, steps):
                 exp.append("R ok")
             elif k == "E":
                 ops.append("E %d %d" % key(v[1]))
-                exp.append("E ok %d" % v[2])
+                exp.append("E ok %d" % v[2] if serial else "E ok")
         ops.append("end")
         exp.append("end %s all-done-once" % st["Z"])
     return ops, exp
@@ -145,32 +145,59 @@ def strip(l):
     return l
 
 
+def same(model_line, expected):
+    """expected 'E ok' (no count): the run was not serialised, the counter value read for the log is not the value of the retire step"""
+    if expected == "E ok" and model_line.startswith("E ok "):
+        return True
+    return model_line == expected
+
+
 def run(ctx):
     ctx.level = "proof"
     ctx.assumptions += [
         "a task's actions (pop with locks, sweep + unlock, each child release, retire) are atomic steps of an interleaving semantics. The lock part of this is a THEOREM of C08 at the level of single AtomicValue operations (pop_is_atomic_acquire: each successful pop linearises at the CAS taking the task's last lock, the projected label sequence is enabled; acquire_guard / running_tasks_conflict_free: the guard of `acquire` holds; failed pops are stuttering steps; hydro_counter_zero). Still assumed: a sweep only touches the subgrids of its lock set (checked by C04's per-call address log), sequential consistency",
         "the model merges `add_task(child)` and `number_of_tasks.pre_increment()` into one step; the real code enqueues first, so the counter can transiently read 0 while the releasing thread still has children to hand out: other threads may leave the loop early, the releasing thread completes the step alone (C08: hydro_counter_exact / hydro_counter_zero state what holds exactly; exactly-once, ordering, mutual exclusion and termination are unaffected)",
         "the replay uses the implementation's child order after checking it is a permutation of the model's child list (well-formedness of the graph only depends on multiplicities)",
-        "trace stamps are taken inside a global mutex (hook H3), so the log order is a valid order of the logged actions",
+        "serialised runs: trace stamps are taken inside a global mutex (hook H3), so the log order is a valid order of the logged actions. Non-serialised runs (CMAC_VERIF_NOSERIAL=1): only single log lines are atomic; the log order is still a valid order because A is logged after the pop, F before the unlock and R before the release (so a child's A always follows all its parents' R; two conflicting tasks never overlap in the log unless they overlapped in the run); the value in E is not compared there",
     ]
     ok = ctx.obligations("CMacVerif.Props.C07", ["drv_c07"])
     E = simrun.enums()
     binary = vlib.full_binary()
     ctx.cov["rule"] = ("layouts nx x ny x nz in 1..3 (thorough: all 27 x 8 periodicities + 3 larger; quick: 14 incl. 1 and 2 subgrids on periodic axes) x threads in {1,2,4,8}; "
-                       "real 2-step pure-hydro runs; table dump and every worker event replayed through the Lean model; distinct = (layout, periodicity, threads); non-trivial = more than one subgrid or a periodic axis")
+                       "real 2-step pure-hydro runs; table dump and every worker event replayed through the Lean model; plus 10 (thorough: 40) NON-serialised 4-step runs with 4/8/16 threads under seeded scheduling jitter (hook H3c + H1 yield points), same replay and oracles; distinct = (layout, periodicity, threads, jitter); non-trivial = more than one subgrid or a periodic axis")
     all_ops, all_exp, groups = [], [], []
+    from props import c10
+    jlib = c10.jitter_lib()
+    runs = []
     for (layout, per) in layouts(ctx):
-        threads = ctx.rng.choice([1, 2, 4, 8])
+        runs.append((layout, per, ctx.rng.choice([1, 2, 4, 8]), None))
+    # non-serialised runs (CMAC_VERIF_NOSERIAL=1: the trace regions do not take the global mutex, so a
+    # "decrement, then look again" or "test, then act" slip in the worker loop is not hidden by the hook) under
+    # seeded scheduling jitter at the H1 yield points of AtomicValue
+    nj = 40 if ctx.thorough else 10
+    for _ in range(nj):
+        layout = ctx.rng.choice([(2, 2, 2), (3, 2, 2), (2, 3, 3), (1, 2, 2), (3, 3, 3)])
+        per = ctx.rng.choice([(True, True, True), (False, False, False), (True, False, True)])
+        jitter = "%d:%d:%d:%d:%d" % (ctx.rng.randrange(1, 10 ** 6), ctx.rng.choice([300, 600, 900]), ctx.rng.choice([20, 60, 150]), ctx.rng.choice([2, 5, 20]), ctx.rng.choice([5, 30, 100]))
+        runs.append((layout, per, ctx.rng.choice([4, 8, 16]), jitter))
+    stop_serial = False
+    for (layout, per, threads, jitter) in runs:
+        if stop_serial:
+            break
         param = simrun.hydro_param(layout, per, cells_per_subgrid=(2, 2, 2), total_time=0.002)
-        res = simrun.run_sim(binary, param, ["--task-based-rhd", "--number-of-steps", "2"], threads=threads, timeout=60)
+        env = {} if jitter is None else {"CMAC_VERIF_NOSERIAL": "1", "LD_PRELOAD": jlib, "CMAC_VERIF_JITTER10": jitter}
+        res = simrun.run_sim(binary, param, ["--task-based-rhd", "--number-of-steps", "2" if jitter is None else "4"], threads=threads, timeout=60, env=env)
         ctx.count()
-        ctx.distinct((layout, per, threads), nontrivial=(layout != (1, 1, 1) or any(per)))
-        rep = {"layout": layout, "periodicity": per, "threads": threads, "param": param,
-               "cmd": "CMacIonize --params run.param --task-based-rhd --number-of-steps 2 --threads %d" % threads}
+        ctx.distinct((layout, per, threads, jitter), nontrivial=(layout != (1, 1, 1) or any(per)))
+        ctx.branch("serialised-trace-runs" if jitter is None else "non-serialised-jitter-runs")
+        rep = {"layout": layout, "periodicity": per, "threads": threads, "param": param, "jitter": jitter,
+               "cmd": ("" if jitter is None else "CMAC_VERIF_NOSERIAL=1 LD_PRELOAD=libc10_jitter.so CMAC_VERIF_JITTER10=%s " % jitter)
+                      + "CMacIonize --params run.param --task-based-rhd --number-of-steps %d --threads %d" % (2 if jitter is None else 4, threads)}
         if res["timed_out"]:
             ctx.violation("hydro:step-never-finishes", "the hydro step of layout %s periodicity %s did not finish within 60 s (threads=%d); last log line: %s"
                           % (layout, per, threads, res["log"].strip().split("\n")[-1][-200:]), rep)
-            break   # every further layout with this defect would cost another timeout
+            stop_serial = True   # every further layout with this defect would cost another timeout
+            continue
         if res["rc"] != 0:
             ctx.violation("hydro:run-failed", "run of layout %s periodicity %s exited with status %d: %s" % (layout, per, res["rc"], res["log"][-400:]), rep)
             continue
@@ -182,7 +209,7 @@ def run(ctx):
             kind = ("executed" if "executed" in b else "same-time" if "same time" in b else "started-early" if "started after" in b
                     else "reset-counter" if "reset counter" in b else "other")
             ctx.violation("hydro:" + kind, "layout %s periodicity %s threads %d: %s" % (layout, per, threads, b), dict(rep, trace=res["trace"][:4000]))
-        ops, exp = model_ops(E, layout, per, subs, tasks, slots, steps)
+        ops, exp = model_ops(E, layout, per, subs, tasks, slots, steps, serial=jitter is None)
         groups.append((len(all_ops), len(ops), rep))
         all_ops += ops
         all_exp += exp
@@ -200,7 +227,7 @@ def run(ctx):
         for (start, n, rep) in groups:
             for i in range(start, start + n):
                 m = strip(model[i]) if i < len(model) else "<missing>"
-                if m != all_exp[i]:
+                if not same(m, all_exp[i]):
                     st["mismatches"] += 1
                     op = all_ops[i]
                     if op[0] in "AFRE" and "DISABLED" in m or "WRONG-CHILD" in m:
@@ -218,7 +245,11 @@ def replay(ctx, path):
     print(json.dumps({k: v for k, v in obj.items() if k not in ("trace", "ops", "param")}, indent=1))
     if "param" in obj:
         binary = vlib.full_binary()
-        res = simrun.run_sim(binary, obj["param"], ["--task-based-rhd", "--number-of-steps", "2"], threads=obj.get("threads", 1), timeout=90)
+        env, nsteps = {}, "2"
+        if obj.get("jitter"):
+            from props import c10
+            env, nsteps = {"CMAC_VERIF_NOSERIAL": "1", "LD_PRELOAD": c10.jitter_lib(), "CMAC_VERIF_JITTER10": obj["jitter"]}, "4"
+        res = simrun.run_sim(binary, obj["param"], ["--task-based-rhd", "--number-of-steps", nsteps], threads=obj.get("threads", 1), timeout=90, env=env)
         print("re-run: rc=%s timed_out=%s" % (res["rc"], res["timed_out"]))
         if res["timed_out"] or res["rc"] != 0:
             print("REPRODUCED")
